@@ -43,6 +43,19 @@ func TestC08(t *testing.T) {
 				prefix = append(prefix, sm{a, b, c, d})
 				scout.OnSample(a, b, c, d)
 			}
+			if kind == 2 && r.Bool(50) && !scout.Dead {
+				// push the Gradient estimate towards its floor with a run of high-latency saturated samples
+				b0 := scout.NoLoad()
+				if b0 <= 0 {
+					b0 = st.base
+				}
+				for i := 0; i < 5+r.Intn(40) && !scout.Dead; i++ {
+					scout.Now += 1000
+					x := sm{scout.Now, b0 * r.Pick(3, 4, 6), int64(scout.EstFloat()) + 1, false}
+					prefix = append(prefix, x)
+					scout.OnSample(x.start, x.rtt, x.inf, x.drop)
+				}
+			}
 			if scout.Dead {
 				continue
 			}
@@ -76,8 +89,16 @@ func TestC08(t *testing.T) {
 				rep.Count("pair-out-of-range")
 				continue
 			}
+			if kind == 2 && nl > 0 && r.Bool(60) {
+				// RTTs inside the band where Gradient's gradient moves: (tolerance x baseline, 2 x tolerance x baseline)
+				lo = nl + nl*r.Range(0, 300)/100
+				hi = lo + 1 + nl*r.Range(1, 150)/100
+			}
 			inf := r.Pick(0, int64(scout.EstFloat()/2), int64(scout.EstFloat()), int64(scout.EstFloat())+2)
 			drop := r.Bool(20)
+			if kind == 2 && r.Bool(60) {
+				inf, drop = int64(scout.EstFloat())+1, false
+			}
 			start := scout.Now + 1000
 			run := func(rtt int64) (*LUT, *caseCtx, pre, SampleObs, bool) {
 				rand.Seed(seed)
